@@ -55,10 +55,40 @@ class C05(UdpCheck):
             "fault fired and at least one message was delivered; distinct = distinct event-order digest")
 
     def gen(self, rng, tier, i):
+        if i % 25 == 3:
+            return self.gen_stream(rng, tier, i)
         case = gen_traffic(rng, i, tier, retries=(-1,), cb_p=0.3)
         if rng.random() < 0.2:
             case["plan"].append({"op": "hgreet", "t": 0.0, "len": rng.choice([5, 300, 2500]), "retry": -1, "cb": False,
                                  "api": rng.choice(["send", "send_guaranteed"]), "kind": 0})
+        return case
+
+    def gen_stream(self, rng, tier, i):
+        """Interleaving with other traffic: one side sends a small guaranteed message EVERY frame for several seconds
+        (tiny load), the round trip is longer than the 0.1 s resend interval, and in the middle one guaranteed message
+        close to the datagram capacity is sent. It must not wait until the stream ends."""
+        case = gen_traffic(rng, i, tier, nclients=1, n_msgs=2, long_latency=False, fault=False, entry=rng.choice(["bare", "twisted", "udpserver"]))
+        cfg = case["cfg"]
+        cfg["clients"][0]["dt"] = 1 / 59
+        cfg["server"]["interval"] = 1 / 59
+        cfg["latency"], cfg["jitter"] = rng.choice([0.03, 0.06, 0.15]), 0.0
+        cap1 = limits(cfg["mtu"])["cap1"]
+        who = rng.choice(["send", "ssend"])
+        plan = [op for op in case["plan"] if op["op"] == "connect"]
+        for op in plan:
+            op.pop("on_connect", None)
+        t0, dur = 1.5, 9.0
+        nframes = int(dur * 59)
+        for j in range(nframes):
+            plan.append({"op": who, "c": 0, "t": round(t0 + j / 59.0, 5), "len": rng.choice([8, 15, 15, 40]), "kind": 0, "retry": -1,
+                         "cb": False, "api": "send"})
+        big = cap1 - rng.choice([0, 1, 2, 5, 10, 40, 200])
+        plan.append({"op": who, "c": 0, "t": round(t0 + 2.0, 5), "len": big, "kind": 3, "retry": -1, "cb": False, "api": "send", "big": True})
+        cfg["phases"] = []
+        cfg["t_heal"] = t0
+        cfg["duration"] = t0 + dur + 6.0
+        cfg["stream_until"] = t0 + dur
+        case["plan"] = plan
         return case
 
     def monitors(self, case):
@@ -75,6 +105,16 @@ class C05(UdpCheck):
                 vs.append({"kind": "send_api_raised", "key": "%s:%s:%s" % (side, rec["api"], rec.get("exc")),
                            "detail": {k: rec[k] for k in ("who", "api", "len", "retry", "t", "exc")}})
         cfg_ = case["cfg"]
+        if cfg_.get("stream_until"):
+            # the large message must arrive well before the stream of small ones ends (bounded waiting, not starvation)
+            big = next((r for r in w.sends if r["len"] > 100 and r["ok"]), None)
+            if big is not None:
+                arr = [d[0] for d in w.delivs if d[3] == big["sig"]]
+                bound = 3.0 * (cfg_.get("msg_timeout", 1.0) + 2 * cfg_["latency"] + 0.2)
+                if not arr or arr[0] - big["t"] > bound:
+                    vs.append({"kind": "guaranteed_message_starved_by_other_traffic", "key": "%s:cap1-%d" % ("server" if big["who"] == "S" else "client", limits(mtu)["cap1"] - big["len"]) if limits(mtu)["cap1"] - big["len"] < 50 else "%s:below-capacity" % ("server" if big["who"] == "S" else "client"),
+                               "detail": {"len": big["len"], "mtu": mtu, "sent": round(big["t"], 3), "delivered": round(arr[0], 3) if arr else None,
+                                          "stream_until": cfg_["stream_until"], "bound_s": round(bound, 2), "latency": cfg_["latency"]}})
         vs += self.qc.judge(w, 3 * max(cfg_["server"]["interval"], 1 / 60) + cfg_["reactor_lag"] + cfg_.get("wake_lag", 0) + 0.02)
         pairs = open_pairs(w)
         if not pairs:
